@@ -1,5 +1,5 @@
 use super::field_utils::{parse_name_and_address, parse_party_identifier};
-use super::swift_utils::{parse_bic, parse_swift_chars};
+use super::swift_utils::{ensure_ascii, parse_bic, parse_swift_chars};
 use crate::errors::ParseError;
 use crate::traits::SwiftField;
 use serde::{Deserialize, Serialize};
@@ -33,6 +33,7 @@ impl SwiftField for Field57A {
     where
         Self: Sized,
     {
+        ensure_ascii(input, "Field 57")?;
         let lines: Vec<&str> = input.lines().collect();
 
         if lines.is_empty() {
@@ -101,6 +102,7 @@ impl SwiftField for Field57B {
     where
         Self: Sized,
     {
+        ensure_ascii(input, "Field 57")?;
         if input.is_empty() {
             return Ok(Field57B {
                 party_identifier: None,
@@ -167,6 +169,7 @@ impl SwiftField for Field57C {
     where
         Self: Sized,
     {
+        ensure_ascii(input, "Field 57")?;
         if !input.starts_with('/') {
             return Err(ParseError::InvalidFormat {
                 message: "Field 57C must start with '/'".to_string(),
@@ -212,6 +215,7 @@ impl SwiftField for Field57D {
     where
         Self: Sized,
     {
+        ensure_ascii(input, "Field 57")?;
         let lines: Vec<&str> = input.lines().collect();
 
         if lines.is_empty() {
@@ -272,6 +276,7 @@ impl SwiftField for Field57 {
     where
         Self: Sized,
     {
+        ensure_ascii(input, "Field 57")?;
         // Try Option A (BIC-based) first
         if let Ok(field) = Field57A::parse(input) {
             return Ok(Field57::A(field));
@@ -463,6 +468,7 @@ impl SwiftField for Field57DebtInstitution {
     where
         Self: Sized,
     {
+        ensure_ascii(input, "Field 57")?;
         // Try parsing as 57A (party identifier + BIC)
         if let Ok(field) = Field57A::parse(input) {
             return Ok(Field57DebtInstitution::A(field));
